@@ -579,8 +579,13 @@ class Checker:
     # ---- event processing ---------------------------------------------------------
     def process_events(self, blocked_before):
         someone_was_blocked = bool(blocked_before)
+        requeue_in_this_run = False
         for ev in self.eng.take_events():
             conn = ev["conn"]
+            if ev["kind"] == "closed" and any(mj.holder is conn and not mj.done for mj in self.jobs.values()):
+                # a connection that went away inside this run pushes its jobs back one by one; a puller that blocked earlier in
+                # the same run is served by the first of these pushes, whatever the others' priorities: order not decidable
+                requeue_in_this_run = True
             if ev["kind"] == "pulled":
                 p = self.pulls.pop(conn, None)
                 snap = ev["job"]
@@ -602,7 +607,7 @@ class Checker:
                     self.V("C16", "handed-out-more-than-once-per-enqueueing", "job %r delivered %d times, re-enqueued %d times" % (
                         jid, mj.deliveries + 1, mj.requeues))
                 # ordering: only decidable without prediction when nobody was blocked when this run started
-                if p is not None and p.get("fresh") and not someone_was_blocked:
+                if p is not None and p.get("fresh") and not someone_was_blocked and not requeue_in_this_run:
                     cands = [m for m in self.jobs.values() if not m.done and m.holder is None and not self.dropped(m.jobid)
                              and eligible(chans, m.channel)]
                     if cands:
